@@ -144,3 +144,153 @@ def gen_core(rng, knobs=None):
                 prog.append(['cancel', ref, sub_role])
     prog.append(['finish'])
     return opts, prog
+
+
+def gen_cut(rng, knobs=None):
+    """0..4 pending interactions in both roles, then the link is cut (orderly EOF / transport error) at an arbitrary byte
+    offset - possibly in the middle of a (fragmented) frame - or an endpoint calls close(); afterwards several keep-alive
+    periods of virtual time pass and the final snapshot is taken."""
+    k = dict(knobs or {})
+    mode = k.get('mode', 'tcp')
+    frag = k['frag'] if 'frag' in k else rng.choice([None, 64, 100])
+    opts = {'mode': mode, 'frag': frag, 'read_buffer': rng.choice([1, 7, 1024]), 'keepalive_ms': 100, 'lifetime_ms': 100000}
+    prog = [['start'], ['pump']]
+    n = rng.randint(0, 4)
+    kinds = []
+    for i in range(n):
+        kind = rng.choice(['rr', 'rr', 'stream', 'stream', 'channel', 'fnf'])
+        ep = rng.choice(['c', 's'])
+        sp = spec(rng)
+        kinds.append(kind)
+        if kind == 'rr':
+            prog.append(['rr', ep, sp, {'mode': rng.choice(['later', 'later', 'immediate']), 'resp': spec(rng),
+                                        'suspend': rng.choice([0, 0, 0.05])}])
+        elif kind == 'fnf':
+            prog.append(['fnf', ep, sp])
+        elif kind == 'stream':
+            pol = src_policy(rng)
+            pol['suspend'] = rng.choice([0, 0, 0.05])
+            prog.append(['stream', ep, sp, rng.choice([1, 2, 5, None]), pol, rng.random() < 0.9])
+        else:
+            pol = src_policy(rng)
+            pol['pub'] = rng.random() < 0.8
+            pol['sub'] = rng.random() < 0.9
+            has_pub = rng.random() < 0.7
+            prog.append(['channel', ep, sp, rng.choice([1, 3, None]), pol, has_pub, src_policy(rng) if has_pub else None,
+                         rng.random() < 0.9])
+        if rng.random() < 0.5:
+            prog.append(['pump'])
+    # some traffic
+    for _ in range(rng.randint(0, 6)):
+        ref = rng.randrange(n) if n else None
+        r = rng.random()
+        if ref is not None and kinds[ref] in ('stream', 'channel') and r < 0.4:
+            sp = spec(rng)
+            prog.append(['emit', ref, rng.choice(['resp', 'req']), sp[0], sp[1], 0])
+        elif ref is not None and kinds[ref] in ('stream', 'channel') and r < 0.55:
+            prog.append(['request_n', ref, rng.choice(['req', 'resp']), rng.choice([1, 3])])
+        elif ref is not None and kinds[ref] == 'rr' and r < 0.5:
+            prog.append(['respond', ref, spec(rng)])
+        elif r < 0.8:
+            prog.append(['deliver', rng.choice(['c', 's']), rng.choice([1, 3, 9, 20, 64, None])])
+        else:
+            prog.append(['pump'])
+    # the fault
+    how = rng.choice(k.get('faults', ['eof', 'eof', 'error', 'close', 'close']))
+    src = rng.choice(['c', 's'])
+    if how in ('eof', 'error'):
+        # deliver a random number of bytes of each direction first, so that the cut lands anywhere (mid frame included)
+        prog.append(['deliver_nosettle', 'c', rng.choice([1, 2, 4, 7, 13, 30, 71, 200])])
+        prog.append(['deliver_nosettle', 's', rng.choice([1, 2, 4, 7, 13, 30, 71, 200])])
+        if rng.random() < 0.5:
+            prog.append(['settle'])
+        prog.append(['cut', src, how])
+    else:
+        if rng.random() < 0.5:
+            prog.append(['deliver', rng.choice(['c', 's']), rng.choice([1, 5, 40, None])])
+        prog.append(['close', src])
+    prog.append(['settle'])
+    prog.append(['advance', 450])
+    prog.append(['settle'])
+    prog.append(['snapshot', 'final'])
+    return opts, prog
+
+
+RAISE_POLICIES = [
+    ('rr', {'raise': True}), ('rr', {'mode': 'error'}), ('fnf', {'raise': True}), ('push', {'raise': True}),
+    ('stream', {'raise': True}), ('stream', {'src': 'scripted', 'pub_raise_in': ['subscribe']}),
+    ('stream', {'src': 'scripted', 'pub_raise_in': ['request']}), ('stream', {'src': 'scripted', 'pub_raise_in': ['cancel']}),
+    ('stream', {'src': 'generator', 'items': [[5, 0], [6, 0], [7, 0]], 'raise_at': 1, 'complete_on_last': True}),
+    ('stream', {'src': 'async_generator', 'items': [[5, 0], [6, 0]], 'raise_at': 0, 'complete_on_last': True}),
+    ('channel', {'raise': True}), ('channel', {'src': 'scripted', 'pub': True, 'sub': True, 'sub_raise_in': ['on_next']}),
+    ('channel', {'src': 'scripted', 'pub': True, 'sub': True, 'sub_raise_in': ['on_subscribe']}),
+    ('channel', {'src': 'scripted', 'pub': True, 'sub': True, 'sub_raise_in': ['on_complete']}),
+    ('channel', {'src': 'scripted', 'pub': True, 'sub': True, 'pub_raise_in': ['request']}),
+    ('stream_sub_raises', {'src': 'scripted'}),
+]
+
+
+def gen_hostile(rng, knobs=None):
+    """a witness stream runs across 1..3 pieces of hostile input (junk frames injected towards either endpoint, and
+    interactions whose application code raises); afterwards the witness finishes and a probe request must be served"""
+    from .junk import CLASSES
+    k = dict(knobs or {})
+    mode = k.get('mode') or rng.choice(['tcp', 'tcp', 'msg'])
+    opts = {'mode': mode, 'frag': rng.choice([None, None, 64]), 'read_buffer': rng.choice([1, 7, 1024]), 'hostile': True}
+    prog = [['start'], ['pump']]
+    dst = rng.choice(['s', 's', 'c'])           # endpoint under attack
+    src = 'c' if dst == 's' else 's'
+    # a finished interaction (for 'finished_stream') and the witness, both opened by the peer of dst
+    prog.append(['rr', src, spec(rng), {'mode': 'immediate', 'resp': spec(rng)}])
+    prog.append(['pump'])
+    prog.append(['stream', src, spec(rng), None, {'src': 'scripted'}, True])
+    prog.append(['pump'])
+    sp = spec(rng)
+    prog.append(['emit', 1, 'resp', sp[0], sp[1], 0])
+    prog.append(['pump'])
+    classes = k.get('classes') or CLASSES
+    for _ in range(rng.randint(1, 3)):
+        if rng.random() < k.get('p_raise', 0.35):
+            kind, pol = rng.choice(RAISE_POLICIES)
+            pol = dict(pol)
+            if kind == 'rr':
+                prog.append(['rr', src, spec(rng), pol])
+            elif kind == 'fnf':
+                prog.append(['fnf', src, spec(rng), pol])
+            elif kind == 'push':
+                prog.append(['push', src, 9, pol])
+            elif kind == 'stream':
+                prog.append(['stream', src, spec(rng), rng.choice([1, 5, None]), pol, True])
+                prog.append(['pump'])
+                prog.append(['request_n', -1, 'req', 3])
+                prog.append(['pump'])
+                prog.append(['cancel', -1, 'req'])
+            elif kind == 'stream_sub_raises':
+                prog.append(['stream_raising_sub', src, spec(rng), pol, rng.choice(['on_next', 'on_subscribe', 'on_complete', 'on_error'])])
+                prog.append(['pump'])
+                sp = spec(rng)
+                prog.append(['emit', -1, 'resp', sp[0], sp[1], 0])
+                prog.append(['pump'])
+                prog.append([rng.choice(['complete', 'error']), -1, 'resp'])
+            else:
+                prog.append(['channel', src, spec(rng), 3, pol, True, {'src': 'scripted'}, True])
+                prog.append(['pump'])
+                sp = spec(rng)
+                prog.append(['emit', -1, 'req', sp[0], sp[1], 0])
+                prog.append(['request_n', -1, 'req', 2])
+                prog.append(['pump'])
+                prog.append(['complete', -1, 'req'])
+                prog.append(['complete', -1, 'resp'])
+            prog.append(['pump'])
+        else:
+            cls = rng.choice(classes)
+            prog.append(['inject', dst, cls, {'r': rng.randrange(10 ** 6), 'spare': 3 if src == 'c' else 4}])
+            prog.append(['pump'] if rng.random() < 0.7 else ['pump', rng.choice([1, 3, 8])])
+    # the witness goes on and completes; a fresh request is served
+    sp = spec(rng)
+    prog.append(['emit', 1, 'resp', sp[0], sp[1], 0])
+    prog.append(['pump'])
+    prog.append(['complete', 1, 'resp'])
+    prog.append(['probe', src, spec(rng), spec(rng)])
+    prog.append(['finish'])
+    return opts, prog
